@@ -97,6 +97,28 @@ func init() {
 				if cnt != 1 {
 					bad("Once ran %d times", cnt)
 				}
+				// unbuffered channel: two senders hold their values out, the receiver takes them in arrival
+				// order (plain receive and select), and no sender gets past its send before its value is taken
+				ub := make(chan int)
+				var passed matomic.Int64
+				for i := 1; i <= 2; i++ {
+					i := i
+					mc.Go(func() { mc.Send(ub, i); passed.Add(1) })
+				}
+				mc.Sleep(int64(time.Second))
+				if passed.Load() != 0 {
+					bad("a send on an unbuffered channel returned before a receive")
+				}
+				a := mc.Recv(ub)
+				sel := mc.Select(false, mc.RecvCase[int](ub))
+				b, ok := mc.Got2[int](ub, sel)
+				if a+b != 3 || !ok {
+					bad("unbuffered channel delivered %d and %d (ok=%v)", a, b, ok)
+				}
+				mc.Sleep(int64(time.Second))
+				if passed.Load() != 2 {
+					bad("%d of 2 senders on the unbuffered channel returned", passed.Load())
+				}
 			}
 			u.Check = func(r *mc.Result) mc.Verdict {
 				v := mc.Verdict{Outcome: "ok", Nontrivial: true, Sample: "shims"}
